@@ -48,8 +48,10 @@ KindDef(node, xs) ==
       [] node.k = "Alma"          -> Alma_Def(node.n, SigmaOf(node), OffsetOf(node), xs)
       [] OTHER                    -> KindDefR(node, xs)
 
-(* the extra getters of the Welford views *)
-ExtraDef(node, name, xs) ==
+(* the extra getters of the Welford views, over the values xs delivered to the node; they are plain numbers, not Options,
+   so nothing is said about them while nothing has been delivered *)
+ExtraKind(node, name, xs) ==
+    IF xs = <<>> THEN RAny ELSE
     CASE node.k = "WelfordOnline" /\ name = "mean"  -> WelfordOnlineMean_Def(node.n, xs)
       [] node.k = "WelfordOnline" /\ name = "var"   -> WelfordOnlineVar_Def(node.n, xs)
       [] node.k = "WelfordRolling" /\ name = "mean" -> WelfordRollingMean_Def(xs)
@@ -164,4 +166,7 @@ TreeDef(node, raw) ==
 DeliveredCount(node, raw) ==
     IF node.k \in BinaryKinds \/ node.k \in LeafKinds \/ ChildOf(node, 1).k = "Echo" THEN Len(raw)
     ELSE LET del == Delivered(ChildOf(node, 1), raw) IN IF ~del[1] THEN -1 ELSE Len(del[2])
+
+ExtraDef(node, name, raw) ==
+    LET del == Delivered(ChildOf(node, 1), raw) IN IF ~del[1] THEN RAny ELSE ExtraKind(node, name, del[2])
 =============================================================================
